@@ -11,6 +11,8 @@ mod c04;
 mod c05;
 mod c06;
 mod c07;
+mod c19;
+mod c19_consts;
 
 use gen::Rng;
 use out::Out;
@@ -72,6 +74,7 @@ fn main() {
         "C05" => c05::run(&mut out, &mut rng, tier),
         "C06" => c06::run(&mut out, &mut rng, tier),
         "C07" => c07::run(&mut out, &mut rng, tier),
+        "C19" => c19::run(&mut out, &mut rng, tier),
         _ => {
             eprintln!("unknown property {}", prop);
             std::process::exit(2);
